@@ -495,3 +495,416 @@ theorem fastq_unchanged_trailing (recs : List FqContent) (hok : FqOk recs) (t : 
   simpa only [List.nil_append, List.length_nil, Bool.true_or, if_true, List.append_nil] using this
 
 end SeqIo.Unchanged
+
+/-! ## FASTQ, M level: `write_unchanged` after `next()` -/
+
+namespace SeqIo.Fastq.Unch
+open SeqIo SeqIo.Spec SeqIo.WriteProofs SeqIo.FillProofs SeqIo.Unchanged SeqIo.Fastq.Hist
+
+theorem validate_ok {r r' : Reader} (h : validate r = (r', .ok ())) : r' = r := by
+  unfold validate at h
+  repeat' split at h
+  all_goals first
+    | (exact (Prod.mk.inj h).1.symm)
+    | (exact absurd (Prod.mk.inj h).2 (by simp))
+    | (simp only at h; split at h <;> simp only [Prod.mk.injEq, reduceCtorEq, and_false] at h)
+
+theorem validated_ok {r r' : Reader} (h : validated r = (r', .ok true)) : r' = r := by
+  unfold validated at h
+  split at h
+  · rename_i r1 hv
+    have := validate_ok hv
+    simp only [Prod.mk.injEq, and_true] at h
+    rw [← h, this]
+  all_goals simp only [Prod.mk.injEq, reduceCtorEq, and_false] at h
+
+theorem checkEnd_few_ne (r : Reader) (ip : RecordPos) (hne : ip ≠ .qual) :
+    (checkEnd r ip).2 ≠ .ok true := by
+  simp only [checkEnd, hne, if_false]
+  repeat' split
+  all_goals simp
+
+/-- where the record just returned lies: in the buffer from `pos0` on, either with all four line
+ends found (`pos1` = the LF of the quality line) or, at the end of the input, with three line ends
+found and `pos1` = the end of the buffer -/
+def RecAt (inp : List UInt8) (r : Reader) : Prop :=
+  inp.drop r.byte = r.br.buf.drop r.bp.pos0 ++ inp.drop r.br.src.cursor ∧
+  (Found4 r.br.buf r.bp ∨
+    (Pre r.br.buf r.bp .qual ∧ nl r.br.buf r.bp.qual = none ∧ r.bp.pos1 = r.br.buf.length ∧
+      r.br.src.cursor = inp.length))
+
+/-- postcondition of the operations that can return a record -/
+def Post (inp : List UInt8) (x : Reader × Res Bool) : Prop := x.2 = .ok true → RecAt inp x.1
+
+theorem post_complete (inp : List UInt8) (G : Prop) (r : Reader) (hb : Base inp G r)
+    (hf : Found4 r.br.buf r.bp) : Post inp (validated r) := by
+  intro hok
+  have : validated r = ((validated r).1, .ok true) := by rw [← hok]
+  rw [validated_ok this]
+  exact ⟨hb.win, Or.inl hf⟩
+
+theorem checkEndQ_ok {r r' : Reader} (h : checkEndQ r = (r', .ok true)) : r' = r := by
+  unfold checkEndQ at h
+  split at h
+  · rename_i r1 hv
+    have e := validate_ok hv
+    subst e
+    repeat' split at h
+    all_goals first
+      | (exact (Prod.mk.inj h).1.symm)
+      | (exact absurd (Prod.mk.inj h).2 (by simp))
+  all_goals exact absurd (Prod.mk.inj h).2 (by simp)
+
+theorem post_eofq (inp : List UInt8) (G : Prop) (r : Reader) (hb : Base inp G r)
+    (hcur : r.br.src.cursor = inp.length) (hsc : Scan r.br.buf r.bp .qual) :
+    Post inp (checkEnd r .qual) := by
+  intro hok
+  rw [checkEnd_qual] at hok ⊢
+  have : checkEndQ { r with bp := { r.bp with pos1 := r.br.buf.length } } =
+      ((checkEndQ { r with bp := { r.bp with pos1 := r.br.buf.length } }).1, .ok true) := by
+    rw [← hok]
+  rw [checkEndQ_ok this]
+  exact ⟨hb.win, Or.inr ⟨hsc.1, hsc.2, rfl, hcur⟩⟩
+
+theorem post_eof_few (inp : List UInt8) (r : Reader) (ip : RecordPos) (hne : ip ≠ .qual) :
+    Post inp (checkEnd r ip) := fun hok => absurd hok (checkEnd_few_ne r ip hne)
+
+theorem resumeK_post (inp : List UInt8) (G : Prop) (f : Nat) (ip : RecordPos) (mk : Bool)
+    (r : Reader)
+    (ih : ∀ (r : Reader) (ip : RecordPos), Base inp G r → Eof inp r →
+      Scan r.br.buf r.bp ip → mu inp r + 1 ≤ f → Post inp (resume f ip mk r))
+    (hb : Base inp G r) (he : Eof inp r)
+    (hpre : Pre r.br.buf r.bp ip) (hmu : mu inp r + 1 ≤ f) :
+    Post inp (resumeK f ip mk r) := by
+  rcases si_spec r ip hb.pos0_le hpre with ⟨bp', ip', hp0, hsc, hres⟩ | ⟨bp', hp0, hf4, hres⟩
+  · simp only [resumeK, hres]
+    exact ih { r with bp := bp', incompletePos := some ip' } ip' (hb.set_bp bp' _ hp0) he hsc hmu
+  · have : resumeK f ip mk r = validated { r with bp := bp', incompletePos := none } := by
+      rw [← wrapS_wrapV_validate]
+      simp only [resumeK, hres]
+      generalize validate _ = v
+      rcases v with ⟨r', (_ | _ | _ | _)⟩ <;> rfl
+    rw [this]
+    exact post_complete inp G { r with bp := bp', incompletePos := none } (hb.set_bp bp' _ hp0) hf4
+
+/-- the loop of `resume_incomplete_search` (same case analysis as `resume_spec`) -/
+theorem resume_post (inp : List UInt8) (G : Prop) (mk : Bool) (f : Nat) :
+    ∀ (r : Reader) (ip : RecordPos), Base inp G r → Eof inp r →
+      Scan r.br.buf r.bp ip → mu inp r + 1 ≤ f → Post inp (resume f ip mk r) := by
+  induction f with
+  | zero => intro r ip _ _ _ h; omega
+  | succ f ih =>
+    intro r ip hb he hsc hmu
+    by_cases hlt : r.br.buf.length < r.br.cap
+    · rw [resume_eof f ip mk r hlt]
+      have hcur := he hlt
+      have hb' : Base inp G { r with state := .finished } := hb.set_state _
+      by_cases hq : ip = .qual
+      · subst hq
+        exact post_eofq inp G { r with state := .finished } hb' hcur hsc
+      · exact post_eof_few inp { r with state := .finished } ip hq
+    · have hfull : r.br.buf.length = r.br.cap := by have := hb.len_le; omega
+      have hmu0 : mu inp r = inp.length - r.br.src.cursor + 1 := by
+        simp only [mu, hlt, if_false]
+      have hw := hb.toWin
+      cases hp : (!mk || decide (r.bp.pos0 = 0)) with
+      | true =>
+        rcases grow_spec r hw.polwf hfull (by have := hb.cap3; omega) with
+          ⟨n, hn, hans, hg⟩ | ⟨hans, hg⟩
+        · generalize hr1 : growOk r n = r1 at hg
+          have hw1 : Win inp G r1 := by
+            obtain ⟨a, b, c, d, e, f, g, i, w, k⟩ := hw
+            subst hr1
+            exact ⟨a, b, c, d, e, by simp only [growOk]; omega, by simp only [growOk]; omega, i, w, k⟩
+          obtain ⟨br', ext, m, hfill, hbuf, hcap, hcur, hext, hw2, he2, -⟩ := fill_win inp G r1 hw1
+          rw [resume_grow f ip mk r r1 br' m hlt hp hg hfill]
+          have e1 : r1.br.buf = r.br.buf := by subst hr1; rfl
+          have e2 : r1.bp = r.bp := by subst hr1; rfl
+          have e6 : r1.br.cap = n := by subst hr1; rfl
+          have e7 : r1.br.src.cursor = r.br.src.cursor := by subst hr1; rfl
+          have hb2 : Base inp G { r1 with br := br' } :=
+            ⟨hw2, by simp only [hbuf, e1, e2, List.length_append]; have := hb.pos0_le; omega⟩
+          exact resumeK_post inp G f ip mk { r1 with br := br' } ih hb2 he2
+            (by simp only [hbuf, e1, e2]; exact hsc.1.append ext)
+            (by
+              simp only [mu, hcur, hcap, hbuf, List.length_append, e1, e6, e7] at hext ⊢
+              split <;> omega)
+        · rw [resume_refused f ip mk r _ _ hlt hp hg]
+          intro hok
+          simp at hok
+      | false =>
+        obtain ⟨hmr, hpre'⟩ := makeRoom_spec r ip hsc.1
+        generalize hr1 : ({ r with br := r.br.consume r.bp.pos0, bp := shiftBp r.bp ip } : Reader)
+          = r1 at hmr
+        have hp0 := hb.pos0_le
+        have hpne : r.bp.pos0 ≠ 0 := by
+          intro h0
+          simp [h0] at hp
+        have hw1 : Win inp G r1 := by
+          obtain ⟨a, b, c, d, e, f, g, i, w, k⟩ := hw
+          subst hr1
+          refine ⟨a, b, c, d, e, f, ?_, ?_, ?_, ?_⟩
+          · simp only [BufRd.consume, List.length_drop]; omega
+          · simp only [BufRd.consume, List.length_drop]; omega
+          · simp only [BufRd.consume, List.length_drop]
+            have : r.br.src.cursor - (r.br.buf.length - r.bp.pos0) =
+                (r.br.src.cursor - r.br.buf.length) + r.bp.pos0 := by omega
+            rw [this, ← List.drop_drop, w, List.drop_append_of_le_length hp0]
+          · simp only [BufRd.consume, shiftBp, List.length_drop]; omega
+        obtain ⟨br', ext, m, hfill, hbuf, hcap, hcur, hext, hw2, he2, -⟩ := fill_win inp G r1 hw1
+        rw [resume_room f ip mk r r1 br' m hlt hp hmr hfill]
+        have e1 : r1.br.buf = r.br.buf.drop r.bp.pos0 := by subst hr1; rfl
+        have e2 : r1.bp = shiftBp r.bp ip := by subst hr1; rfl
+        have e6 : r1.br.cap = r.br.cap := by subst hr1; rfl
+        have e7 : r1.br.src.cursor = r.br.src.cursor := by subst hr1; rfl
+        have hb2 : Base inp G { r1 with br := br' } :=
+          ⟨hw2, by simp only [e2, shiftBp]; omega⟩
+        exact resumeK_post inp G f ip mk { r1 with br := br' } ih hb2 he2
+          (by simp only [hbuf, e1, e2]; exact hpre'.append ext)
+          (by
+            simp only [mu, hcur, hcap, hbuf, List.length_append, e1, e6, e7,
+              List.length_drop] at hext ⊢
+            split <;> omega)
+
+theorem nextCont_post (inp : List UInt8) (G : Prop) (fuel : Nat) (r : Reader) (hb : Base inp G r)
+    (he : Eof inp r) (hip : IpOk r) (hfuel : inp.length + 2 ≤ fuel) :
+    Post inp (nextCont fuel r) := by
+  have hmu : ∀ r' : Reader, r'.br.src.cursor ≤ inp.length → mu inp r' + 1 ≤ fuel := by
+    intro r' h
+    simp only [mu]
+    split <;> omega
+  cases hipv : r.incompletePos with
+  | some ip =>
+    have : nextCont fuel r = resume fuel ip true r := by
+      simp only [nextCont, hipv, Option.isNone_some, Bool.false_eq_true, if_false]
+    rw [this]
+    exact resume_post inp G true fuel r ip hb he (hip ip hipv) (hmu r hb.cur_le)
+  | none =>
+    rcases si_spec r .head hb.pos0_le trivial with ⟨bp', ip', hp0, hsc, hres⟩ | ⟨bp', hp0, hf4, hres⟩
+    · have : nextCont fuel r =
+          resume fuel ip' true { r with bp := bp', incompletePos := some ip' } := by
+        simp only [nextCont, hipv, Option.isNone_none, if_true, search_eq r hipv, hres, wrapS]
+      rw [this]
+      exact resume_post inp G true fuel { r with bp := bp', incompletePos := some ip' } ip'
+        (hb.set_bp bp' _ hp0) he hsc (hmu _ hb.cur_le)
+    · have : nextCont fuel r = validated { r with bp := bp', incompletePos := none } := by
+        have h1 := validate_ip { r with bp := bp', incompletePos := none }
+        simp only [nextCont, hipv, Option.isNone_none, if_true, search_eq r hipv, hres]
+        unfold validated
+        revert h1
+        generalize validate _ = v
+        rcases v with ⟨r', (_ | _ | _ | _)⟩ <;> intro h1
+        · simp only at h1
+          simp only [wrapS, wrapV, h1]
+        all_goals rfl
+      rw [this]
+      exact post_complete inp G { r with bp := bp', incompletePos := none } (hb.set_bp bp' _ hp0) hf4
+
+/-- a `next()` call that returns a record leaves it where `RecAt` says -/
+theorem next_post (inp : List UInt8) (G : Prop) (fuel : Nat) (r : Reader) (items : List FqItem)
+    (hg : Good inp G r items) (hfuel : r.br.src.inp.length + 2 ≤ fuel) : Post inp (next fuel r) := by
+  cases hst : r.state with
+  | positioned =>
+    simp only [Good, hst] at hg
+    obtain ⟨hb, he, hip, hits⟩ := hg
+    rw [hb.inp_eq] at hfuel
+    have : next fuel r = nextCont fuel { r with state := .parsing } := by
+      simp only [next, hst]
+    rw [this]
+    exact nextCont_post inp G fuel { r with state := .parsing } (hb.set_state _) he hip hfuel
+  | finished =>
+    intro hok
+    simp [next, hst] at hok
+  | new =>
+    simp only [Good, hst] at hg
+    obtain ⟨hw, hbuf, hcur, hp0, hbyte, hline, hip, hitems⟩ := hg
+    obtain ⟨br', ext, n, hfill, hbuf', hcap', hcur', hext, hw2, he2, hn⟩ := fill_win inp G r hw
+    rw [hw.inp_eq] at hfuel
+    cases n with
+    | zero =>
+      intro hok
+      simp [next, hst, init, hfill] at hok
+    | succ n =>
+      have : next fuel r = nextCont fuel { r with br := br', state := .parsing } := by
+        simp only [next, hst, init, hfill]
+      rw [this]
+      have hb2 : Base inp G { r with br := br' } := ⟨hw2, by simp [hp0]⟩
+      exact nextCont_post inp G fuel { r with br := br', state := .parsing }
+        (hb2.set_state .parsing) he2 (by intro ip h; simp only [hip] at h; cases h) hfuel
+  | parsing =>
+    simp only [Good, hst] at hg
+    obtain ⟨hb, he, hip, h01, h1l, hitems⟩ := hg
+    rw [hb.inp_eq] at hfuel
+    have hinc : incrementRecord r = some { r with
+        byte := r.byte + (r.bp.pos1 + 1 - r.bp.pos0), line := r.line + 4,
+        bp := { r.bp with pos0 := r.bp.pos1 + 1 } } := by
+      simp only [incrementRecord, csub_of_le h01]
+    have : next fuel r = nextCont fuel { r with
+        byte := r.byte + (r.bp.pos1 + 1 - r.bp.pos0), line := r.line + 4,
+        bp := { r.bp with pos0 := r.bp.pos1 + 1 } } := by
+      simp only [next, hst, hinc]
+    rw [this]
+    have hp0 := hb.pos0_le
+    refine nextCont_post inp G fuel _ ?_ he (by intro ip h; simp only [hip] at h; cases h) hfuel
+    obtain ⟨⟨a, b, c, d, e, f, g, i, w, k⟩, -⟩ := hb
+    exact ⟨⟨a, b, c, d, e, f, g, i, w, by simp only; omega⟩, h1l⟩
+
+theorem take_length_append {α : Type} (x rest : List α) (n : Nat) (h : n = x.length) :
+    (x ++ rest).take n = x := by
+  subst h; simp
+
+/-- what `write_unchanged` writes for a record lying as `RecAt` says: the bytes of the input from
+the record's offset on, `pos1 - pos0` of them, which are the record's four lines without the
+final LF; then LF -/
+theorem recAt_writeUnchanged (inp : List UInt8) (r : Reader) (h : RecAt inp r) :
+    r.bp.pos0 ≤ r.bp.pos1 ∧
+    writeUnchanged r.br.buf r.bp =
+      some ((inp.drop r.byte).take (r.bp.pos1 - r.bp.pos0) ++ [LF]) ∧
+    (inp.drop r.byte).take (r.bp.pos1 - r.bp.pos0) = extent inp r.byte 4 := by
+  obtain ⟨hwin, hf | ⟨hpre, hd, hp1, hcur⟩⟩ := h
+  · -- all four lines are terminated
+    have hsplit := hf.split (inp.drop r.br.src.cursor)
+    have hlens := hf.lens
+    obtain ⟨a, b, c, d⟩ := hf
+    have a' := nl_some a
+    have b' := nl_some b
+    have c' := nl_some c
+    have d' := nl_some d
+    obtain ⟨X, hX⟩ : ∃ X, X = hP r.br.buf r.bp ++ LF :: (sP r.br.buf r.bp ++ LF ::
+        (pP r.br.buf r.bp ++ LF :: qP r.br.buf r.bp)) := ⟨_, rfl⟩
+    have hdrop : r.br.buf.drop r.bp.pos0 = X ++ LF :: r.br.buf.drop (r.bp.pos1 + 1) := by
+      rw [hX, a'.2.2.2.2, b'.2.2.2.2, c'.2.2.2.2, d'.2.2.2.2]
+      simp [hP, sP, pP, qP]
+    have hlen : r.bp.pos1 - r.bp.pos0 = X.length := by
+      rw [hX]
+      simp only [List.length_append, List.length_cons]
+      omega
+    have h01 : r.bp.pos0 ≤ r.bp.pos1 := by omega
+    have h1 : r.bp.pos1 ≤ r.br.buf.length := by omega
+    refine ⟨h01, ?_, ?_⟩
+    · simp only [writeUnchanged, slice_of_le h01 h1, Option.map_some, Option.some.injEq]
+      rw [hwin, List.drop_take, hdrop, take_length_append _ _ _ hlen, List.append_assoc,
+        take_length_append _ _ _ hlen]
+    · unfold extent
+      rw [hwin, hsplit, hdrop, List.append_assoc, take_length_append _ _ _ hlen, hX]
+      simp [joinLF]
+  · -- the quality line is ended by the end of the input
+    obtain ⟨a, b, c⟩ := hpre
+    have a' := nl_some a
+    have b' := nl_some b
+    have c' := nl_some c
+    have h01 : r.bp.pos0 ≤ r.bp.pos1 := by omega
+    have hno : LF ∉ r.br.buf.drop r.bp.qual := nl_none hd
+    have hdrop : r.br.buf.drop r.bp.pos0 =
+        hP r.br.buf r.bp ++ LF :: (sP r.br.buf r.bp ++ LF :: (pP r.br.buf r.bp ++ LF ::
+          r.br.buf.drop r.bp.qual)) := by
+      rw [a'.2.2.2.2, b'.2.2.2.2, c'.2.2.2.2]
+      simp [hP, sP, pP]
+    have hall : (inp.drop r.byte).take (r.bp.pos1 - r.bp.pos0) = r.br.buf.drop r.bp.pos0 := by
+      rw [hwin, hcur, List.drop_length, List.append_nil, hp1]
+      apply List.take_of_length_le
+      simp
+    refine ⟨h01, ?_, ?_⟩
+    · simp only [writeUnchanged, slice_of_le h01 (by omega : r.bp.pos1 ≤ r.br.buf.length),
+        Option.map_some, Option.some.injEq]
+      rw [hall, hp1, List.take_length]
+    · rw [hall]
+      unfold extent
+      rw [hwin, hcur, List.drop_length, List.append_nil, hdrop,
+        splitLF_append _ _ (show LF ∉ hP r.br.buf r.bp from a'.2.2.2.1),
+        splitLF_append _ _ (show LF ∉ sP r.br.buf r.bp from b'.2.2.2.1),
+        splitLF_append _ _ (show LF ∉ pP r.br.buf r.bp from c'.2.2.2.1), splitLF_noLF _ hno]
+      simp [joinLF]
+
+/-- **C11, FASTQ, M level.** After a `next()` call (from any reachable state, any buffer capacity,
+refill pattern and growth policy) that returns a record, `write_unchanged` of that record succeeds
+and writes the raw extent of S's record in the input followed by LF; that extent is the `pos1 - pos0`
+bytes of the input from the record's byte offset on. -/
+theorem fastq_unchanged_bytes (inp : List UInt8) (G : Prop) (fuel : Nat) (r : Reader)
+    (items : List FqItem) (hg : Good inp G r items) (hfuel : r.br.src.inp.length + 2 ≤ fuel)
+    (hok : (next fuel r).2 = .ok true) :
+    ∃ (x : FqRec) (rest : List FqItem), items = .record x :: rest ∧
+      Good inp G (next fuel r).1 rest ∧ (next fuel r).1.byte = x.byte ∧
+      writeUnchanged (next fuel r).1.br.buf (next fuel r).1.bp = some (rawFq inp x ++ [LF]) ∧
+      rawFq inp x =
+        (inp.drop x.byte).take ((next fuel r).1.bp.pos1 - (next fuel r).1.bp.pos0) := by
+  obtain ⟨h01, hw, hx⟩ := recAt_writeUnchanged inp _ (next_post inp G fuel r items hg hfuel hok)
+  rcases next_found inp G fuel r items hg hfuel with
+    ⟨-, x, its', hits, hsh⟩ | ⟨hr, -⟩ | ⟨e, b, l, hr, -⟩ | ⟨hr, -⟩
+  · have hbyte := hsh.byte_eq
+    refine ⟨x, its', hits, hsh.good, hbyte.symm, ?_, ?_⟩
+    · rw [hw, hx, rawFq, hbyte]
+    · rw [rawFq, hbyte, hx]
+  · rw [hok] at hr; cases hr
+  · rw [hok] at hr; cases hr
+  · rw [hok] at hr; cases hr
+
+/-! ### the whole stream -/
+
+/-- `k` times: `next()`, then `write_unchanged` of the record if one was returned; the output is
+collected (`none` = a `write_unchanged` panicked) -/
+def runWrites : Nat → Reader → Option (List UInt8)
+  | 0, _ => some []
+  | k + 1, r =>
+    let x := next (opFuel r.br.src.inp.length r.br.src.script.length) r
+    match x.2 with
+    | .ok true =>
+      match writeUnchanged x.1.br.buf x.1.bp, runWrites k x.1 with
+      | some a, some b => some (a ++ b)
+      | _, _ => none
+    | _ => runWrites k x.1
+
+theorem runWrites_spec (inp : List UInt8) (k : Nat) :
+    ∀ (r : Reader) (items : List FqItem), Good inp True r items →
+      runWrites k r = some ((items.take k).flatMap (fqOut inp)) := by
+  induction k with
+  | zero => intro r items _; simp [runWrites]
+  | succ k ih =>
+    intro r items hg
+    have hfuel := opFuel_enough r
+    by_cases hok : (next (opFuel r.br.src.inp.length r.br.src.script.length) r).2 = .ok true
+    · obtain ⟨x, rest, hi, hg', -, hw, -⟩ := fastq_unchanged_bytes inp True _ r items hg hfuel hok
+      simp only [runWrites, hok, hw, ih _ rest hg', hi, List.take_succ_cons, List.flatMap_cons, fqOut]
+    · have hrun : runWrites (k + 1) r =
+          runWrites k (next (opFuel r.br.src.inp.length r.br.src.script.length) r).1 := by
+        simp only [runWrites]
+      rw [hrun]
+      rcases next_found inp True _ r items hg hfuel with
+        ⟨hr, -⟩ | ⟨hr, hits, hfin⟩ | ⟨e, b, l, hr, hits, hfin⟩ | ⟨hr, hG, hfin⟩
+      · exact absurd hr hok
+      · rw [ih _ [] hfin.good, hits]; simp
+      · rw [ih _ [] hfin.good, hits]; simp [fqOut]
+      · exact absurd trivial hG
+
+/-- **C11, FASTQ, M level, the whole stream.** `next()` / `write_unchanged` in a loop writes the
+extents of S's records, each followed by LF, for every input, capacity ≥ 3, growing policy and
+read script without failing events. -/
+theorem fastq_write_unchanged_stream (inp : List UInt8) (cap : Nat) (hcap : 3 ≤ cap) (pol : Pol)
+    (hpol : PolGrows pol) (script : List ReadEv) (hs : NoFail script) (chunk : Nat) (k : Nat) :
+    runWrites k (mkReader inp cap pol script chunk) =
+      some (((Spec.fastq inp).take k).flatMap (fqOut inp)) :=
+  runWrites_spec inp k _ _ (good_mkReader inp cap hcap pol hpol script hs chunk)
+
+theorem length_fqExpected (recs : List Recode.FqContent) (line : Nat) :
+    (Recode.fqExpected recs line).length = recs.length := by
+  induction recs generalizing line with
+  | nil => rfl
+  | cons p recs ih => simp [Recode.fqExpected, ih]
+
+/-- **C11, FASTQ, end to end.** Reading a well-formed LF or CRLF file and writing every record
+unchanged reproduces the file byte for byte, with an LF added if the last line had no terminator. -/
+theorem fastq_write_unchanged_file (recs : List Recode.FqContent) (hok : Recode.FqOk recs)
+    (t : Recode.Term) (final : Bool) (cap : Nat) (hcap : 3 ≤ cap) (pol : Pol) (hpol : PolGrows pol)
+    (script : List ReadEv) (hs : NoFail script) (chunk : Nat) (k : Nat) (hk : recs.length ≤ k) :
+    runWrites k (mkReader (Recode.encodeFastq recs t final) cap pol script chunk) =
+      some (Recode.encodeFastq recs t final ++ (if final || recs.isEmpty then [] else [LF])) := by
+  rw [fastq_write_unchanged_stream _ cap hcap pol hpol script hs chunk k,
+    ← fastq_unchanged_concat recs hok t final]
+  obtain ⟨rs, h1, h2⟩ := Recode.fastq_recode_invariant recs hok t final
+  have hlen : (Spec.fastq (Recode.encodeFastq recs t final)).length = recs.length := by
+    have := congrArg List.length h2
+    rw [List.length_map, length_fqExpected] at this
+    rw [h1, List.length_map, this]
+  rw [List.take_of_length_le (by omega)]
+
+end SeqIo.Fastq.Unch
